@@ -321,7 +321,7 @@ func nativeReplayBatch(pkgRel string, paths []string, files []string, pkgName st
 		for _, i := range idx {
 			ps = append(ps, paths[i])
 		}
-		cmd := exec.Command(bin, "-test.run", "^TestVFReplay$", "-test.v", "-test.timeout", "120s")
+		cmd := exec.Command(bin, "-test.run", "^TestVFReplay$", "-test.v", "-test.timeout", "40s")
 		cmd.Dir = pkgDir
 		cmd.Env = append(os.Environ(), "VF_REPLAY="+strings.Join(ps, ":"), "VF_ATTEMPTS=400")
 		done := make(chan struct{})
@@ -329,7 +329,7 @@ func nativeReplayBatch(pkgRel string, paths []string, files []string, pkgName st
 		go func() { out, _ = cmd.CombinedOutput(); close(done) }()
 		select {
 		case <-done:
-		case <-time.After(200 * time.Second):
+		case <-time.After(90 * time.Second):
 			if cmd.Process != nil {
 				cmd.Process.Kill()
 			}
